@@ -219,3 +219,167 @@ func init() {
 		return &Iface{}
 	}
 }
+
+// ---- context -----------------------------------------------------------------
+
+type ctxGhost struct {
+	done   *ChanObj
+	parent *ctxGhost
+	err    Value
+}
+
+func (ex *Exec) ctxOf(v Value) *ctxGhost {
+	if i, ok := v.(*Iface); ok {
+		if i.T == nil {
+			return nil
+		}
+		v = i.V
+	}
+	if p, ok := v.(*Ptr); ok && p.Obj != nil {
+		if g, ok := p.Obj.Ghost.(*ctxGhost); ok {
+			return g
+		}
+	}
+	return nil
+}
+
+func init() {
+	m := models
+	bg := func(ex *Exec, fr *frame, a []Value) Value {
+		t := ex.P.Pkgs["context"].Type("backgroundCtx")
+		if t == nil {
+			ex.unsupported(fr, "context.backgroundCtx type not found")
+		}
+		return &Iface{T: t.Type(), V: ex.zero(t.Type())}
+	}
+	m["context.Background"] = bg
+	m["context.TODO"] = bg
+	m["context.WithCancel"] = func(ex *Exec, fr *frame, a []Value) Value {
+		ct := ex.P.Pkgs["context"].Type("cancelCtx").Type()
+		ex.nextObj++
+		g := &ctxGhost{done: &ChanObj{ID: ex.nextObj, Cap: 0, ET: types.NewStruct(nil, nil), Label: "ctx.Done"}, parent: ex.ctxOf(a[0])}
+		if g.parent != nil && g.parent.done.Closed {
+			g.done.Closed = true
+		}
+		obj := ex.newObject(ct, &Opaque{T: ct}, "cancelCtx")
+		obj.Ghost = g
+		ex.ctxChildren = append(ex.ctxChildren, g)
+		ctx := &Iface{T: types.NewPointer(ct), V: &Ptr{Obj: obj}}
+		cancel := &Func{Model: func(ex *Exec, fr *frame, args []Value) Value {
+			ex.cancelCtx(g)
+			return nil
+		}}
+		return Tuple{ctx, cancel}
+	}
+	done := func(ex *Exec, fr *frame, a []Value) Value {
+		if g := ex.ctxOf(a[0]); g != nil {
+			return &Chan{C: g.done}
+		}
+		return &Chan{}
+	}
+	m["(*context.cancelCtx).Done"] = done
+	m["(context.backgroundCtx).Done"] = done
+	m["(context.emptyCtx).Done"] = done
+	errf := func(ex *Exec, fr *frame, a []Value) Value {
+		if g := ex.ctxOf(a[0]); g != nil && g.done.Closed {
+			return ex.mkError("context canceled")
+		}
+		return &Iface{}
+	}
+	m["(*context.cancelCtx).Err"] = errf
+	m["(context.backgroundCtx).Err"] = errf
+	m["(context.emptyCtx).Err"] = errf
+}
+
+// cancelCtx closes a context and every context derived from it.
+func (ex *Exec) cancelCtx(g *ctxGhost) {
+	g.done.Closed = true
+	for _, c := range ex.ctxChildren {
+		if !c.done.Closed {
+			for p := c.parent; p != nil; p = p.parent {
+				if p == g {
+					c.done.Closed = true
+					break
+				}
+			}
+		}
+	}
+}
+
+// ---- net/url, x/net/proxy, crypto/tls, time.Ticker -------------------------------
+
+func init() {
+	m := models
+	m["net/url.Parse"] = func(ex *Exec, fr *frame, a []Value) Value {
+		t := ex.P.Pkgs["net/url"].Type("URL").Type()
+		obj := ex.newObject(t, ex.zero(t), "url.URL")
+		obj.Ghost = a[0].(*Str)
+		return Tuple{&Ptr{Obj: obj}, &Iface{}}
+	}
+	m["golang.org/x/net/proxy.RegisterDialerType"] = func(ex *Exec, fr *frame, a []Value) Value {
+		scheme, ok := a[0].(*Str).Concrete()
+		if !ok {
+			ex.unsupported(fr, "symbolic proxy scheme")
+		}
+		ex.ghost["proxy:"+scheme] = a[1]
+		return nil
+	}
+	m["golang.org/x/net/proxy.FromURL"] = func(ex *Exec, fr *frame, a []Value) Value {
+		u := a[0].(*Ptr)
+		raw := u.Obj.Ghost.(*Str)
+		s, ok := raw.Concrete()
+		if !ok {
+			ex.unsupported(fr, "symbolic proxy URL")
+		}
+		scheme := s
+		for i := 0; i < len(s); i++ {
+			if s[i] == ':' {
+				scheme = s[:i]
+				break
+			}
+		}
+		f, ok := ex.ghost["proxy:"+scheme]
+		if !ok {
+			return Tuple{&Iface{}, ex.mkError("proxy: unknown scheme: " + scheme)}
+		}
+		return ex.call(fr, f.(*Func), []Value{a[0], a[1]}, nil)
+	}
+	m["crypto/tls.Client"] = func(ex *Exec, fr *frame, a []Value) Value {
+		t := ex.P.Pkgs["crypto/tls"].Type("Conn").Type()
+		obj := ex.newObject(t, &Opaque{T: t}, "tls.Conn")
+		obj.Ghost = a[0]
+		ex.logEvent("tls-client", nil)
+		return &Ptr{Obj: obj}
+	}
+	m["(*crypto/tls.Conn).Handshake"] = func(ex *Exec, fr *frame, a []Value) Value {
+		// the in-memory peer never answers: the handshake fails
+		return ex.mkError("tls: handshake failed (stub)")
+	}
+	m["(*net.Dialer).DialContext"] = func(ex *Exec, fr *frame, a []Value) Value {
+		ex.logEvent("dial", a[3])
+		return Tuple{&Iface{}, ex.mkError("dial stub: network unreachable")}
+	}
+	m["time.NewTicker"] = func(ex *Exec, fr *frame, a []Value) Value {
+		d := a[0].(*Term)
+		if !ex.X.Branch(ex.B.Bin(OSlt, ex.B.Const(64, 0), d)) {
+			panic(&goPanic{Val: &Iface{T: types.Typ[types.String], V: ex.mkStr("non-positive interval for NewTicker")}, Kind: "explicit:non-positive interval for NewTicker", Where: ex.where(fr)})
+		}
+		tt := ex.P.Pkgs["time"].Type("Ticker").Type()
+		timeT := ex.P.Pkgs["time"].Type("Time").Type()
+		ex.nextObj++
+		c := &ChanObj{ID: ex.nextObj, Cap: 1 << 20, ET: timeT, Label: "ticker.C"}
+		for i := 0; i < ex.X.TickerTicks; i++ {
+			c.Buf = append(c.Buf, ex.zero(timeT))
+		}
+		st := ex.zero(tt).(*StructV)
+		nf := append([]Value(nil), st.F...)
+		nf[0] = &Chan{C: c}
+		obj := ex.newObject(tt, &StructV{F: nf}, "time.Ticker")
+		ex.logEvent("ticker", d)
+		return &Ptr{Obj: obj}
+	}
+	m["(*time.Ticker).Stop"] = func(ex *Exec, fr *frame, a []Value) Value {
+		ex.logEvent("ticker-stop", nil)
+		return nil
+	}
+}
